@@ -135,3 +135,56 @@ func VerifC11Clear() {
 	vAssert(queued(ss) == want, "exactly the retained messages that were not cleared and match are replayed")
 	vCover("c11-clear-end")
 }
+
+// VerifC11Will: a will message carrying the retain flag counts as a publish: when the real
+// client ends without DISCONNECT its will (non-empty payload) becomes the retained message
+// of its topic - replacing an older one - and a will with an empty payload clears it; a will
+// without the flag leaves the retained set alone. A later subscription sees exactly that.
+func VerifC11Will() {
+	m := NewMemoryBackend()
+	pub, _ := mkClient(m, "p", true)
+	older := vBool("older")
+	if older {
+		vAssert(m.Publish(pub, &packet.Message{Topic: "w", Payload: []byte{7}, Retain: true}, nil) == nil, "retained publish")
+	}
+	retain := vBool("willretain")
+	payload := vBytes("willpayload", 2)
+	wq := symQOS("willqos")
+	conn := newVConn(false)
+	c := NewClient(m, conn)
+	conn.in <- mkConnect("c", true, &packet.Message{Topic: "w", Payload: payload, QOS: wq, Retain: retain})
+	vQuiesce()
+	vAssert(conn.sentCount() == 1 && !conn.isClosed(), "accepted")
+	if vBool("disconnect") {
+		conn.in <- packet.NewDisconnect()
+		retain = false // no will at all
+		vQuiesce()
+	} else {
+		close(conn.in)
+		vQuiesce()
+	}
+	vAssert(chanClosed(c.Closed()), "client gone")
+	sub, ss := mkClient(m, "s", true)
+	vAssert(m.Subscribe(sub, []packet.Subscription{{Topic: "w", QOS: 2}}, nil) == nil, "Subscribe")
+	switch {
+	case retain && len(payload) > 0:
+		vCover("c11-will-retained")
+		vAssert(queued(ss) == 1, "a retained will is replayed to a later subscriber")
+		got, _, _ := m.Dequeue(sub)
+		vAssert(got != nil && got.Retain, "flagged retained")
+		if got != nil {
+			vAssertEqBytes(got.Payload, payload, "with the will's payload (it replaced any older retained message)")
+			vAssert(got.QOS == wq, "and the will's QoS")
+		}
+	case retain:
+		vCover("c11-will-clears")
+		vAssert(queued(ss) == 0, "a retained will with an empty payload clears the retained message")
+	case older:
+		vAssert(queued(ss) == 1, "a will without the flag (or no will) leaves the retained message alone")
+		got, _, _ := m.Dequeue(sub)
+		vAssert(got != nil && len(got.Payload) == 1 && got.Payload[0] == 7, "the older retained message is still there")
+	default:
+		vAssert(queued(ss) == 0, "nothing retained")
+	}
+	vCover("c11-will-end")
+}
